@@ -40,7 +40,7 @@ def run(ctx):
            twin_fn='tw_escape', twin_pre=['len(s) == 2'],
            desc='ashes.escape_html (the filter of {tb_str},{exc_type},{exc_msg},{last_line},{.}): no < > " \' and & only as entity start'),
     ]
-    obs.append(Ob('every_path', 'ob_every_path', '', packed=[('path_i', 18), ('method_i', 5), ('tb_i', 3)], cells=[('tb%d' % t, [{}]) for t in range(1)], timeout=tmo, confirm='confirm_every_path',
+    obs.append(Ob('every_path', 'ob_every_path', '', packed=[('path_i', 18), ('method_i', 5), ('tb_i', 3)], cells=[('path%d' % i, [{'path_i': i}]) for i in range(18)], timeout=tmo, confirm='confirm_every_path',
                   desc='the real failsafe application through the WSGI client: 18 paths (root, deep, repeated slashes, NUL, and paths under /clastic_assets/ that are missing, '
                        'dotted, percent-encoded or normalise outside the asset directory) x 5 methods x 3 error texts: always 200, the page carries the escaped error text (real assets excepted)'))
     res = run_obligations('C20', 'harness.c20', obs, ctx.tier)
